@@ -10,7 +10,7 @@ for f in "$@"; do
     files=$(grep -o "^//@ file [^ ]*" contracts/$u.vrs | awk '{print $3}')
     hit=0; for x in $files; do grep -q "^+++ b/$x" $f && hit=1; done
     [ $hit = 1 ] || continue
-    out=$(REPO=$R tools/dev.sh $u 2>&1)
+    out=$(VW=/var/tmp/vw_screen REPO=$R tools/dev.sh $u 2>&1)
     res=$(echo "$out" | grep -o "verification results:: .*" | head -1)
     [ -z "$res" ] && res="NO-RESULT: $(echo "$out" | grep -m1 "^error" | cut -c1-160)"
     echo "$name $u :: $res :: $(echo "$out" | grep -m1 "^error" | cut -c1-120)"
